@@ -194,12 +194,13 @@ RunResult run_w17(const Plan& pl) {
         double lm = 0; { size_t p = xml.find("<min_edge_length>"); if (p != std::string::npos) lm = strtod(xml.c_str() + p + 17, nullptr); }
         // lenient scan (like the reader's number regex): numeric prefixes of the tokens between POINTS and CELLS
         // numbers as the reader's own lenient pattern finds them between the POINTS line and CELLS ("%e-06" is read as -6)
-        std::vector<double> pts; { size_t a = vtk.find("POINTS"), b = vtk.find("CELLS"); if (a != std::string::npos) { size_t nl = vtk.find('\n', a); if (nl != std::string::npos && (b == std::string::npos || nl < b)) { std::string sec = vtk.substr(nl, b == std::string::npos ? std::string::npos : b - nl); static const std::regex num(R"(([-\+]?[\d.]+(?:[e|E][-\+]?\d+)?))"); for (auto it = std::sregex_iterator(sec.begin(), sec.end(), num); it != std::sregex_iterator(); ++it) { double v = strtod(it->str().c_str(), nullptr); if (std::isfinite(v)) pts.push_back(v); } } } }
+        std::vector<double> pts; { size_t a = vtk.find("POINTS"), b = vtk.find("CELLS"); if (a != std::string::npos) { size_t nl = vtk.find('\n', a); { static const std::regex hdr(R"(POINTS ([0-9]+) ([a-z]+))"); std::smatch mh; if (std::regex_search(vtk, mh, hdr)) nl = (size_t)(mh.position(0) + mh.length(0)); }   /* the reader takes the coordinates right after this match, not after the end of the line */ if (nl != std::string::npos && (b == std::string::npos || nl < b)) { std::string sec = vtk.substr(nl, b == std::string::npos ? std::string::npos : b - nl); static const std::regex num(R"(([-\+]?[\d.]+(?:[e|E][-\+]?\d+)?))"); for (auto it = std::sregex_iterator(sec.begin(), sec.end(), num); it != std::sregex_iterator(); ++it) { double v = strtod(it->str().c_str(), nullptr); if (std::isfinite(v)) pts.push_back(v); } } } }
         { size_t a = vtk.find("POINTS"); long np = a == std::string::npos ? 0 : strtol(vtk.c_str() + a + 6, nullptr, 10); if (np > 0 && pts.size() > (size_t)np * 3) pts.resize((size_t)np * 3); }   // the reader only uses the points that the faces can index
         bool huge = false; double amax = 0; for (double v : pts) amax = std::max(amax, std::fabs(v));
         if (lm > 0 && amax > 30 * lm && amax < 1e15 * lm) huge = true;
         if (huge) { res.probes.hit("skipped_wellformed_but_huge_vs_lmin"); res.sim_iterations = 1; Fnv h; h.adds(vtk); h.adds(xml); res.fingerprint = h.h; res.nontrivial = false; return res; }
     }
+    if (getenv("W17_DUMP")) { fprintf(stderr, "---- vtk ----\n%s\n", vtk.substr(0, 700).c_str()); }
     if (getenv("W17_DESC")) { fprintf(stderr, "W17 base=%d mutations: %s\n", b, desc.c_str()); fflush(stderr); }
     sim::begin_run(cfg);
     std::string outcome;
